@@ -1175,6 +1175,34 @@ func runVestCase(ta *TestApp, seed uint64, idx int, rep *Report, profile string)
 			break
 		}
 	}()
+	// ---- epilogue on a dropped branch (C09): every existing account of another kind (delayed / periodic / permanent-locked vesting) as
+	// the recipient of a send out of every pool that still locks something, and of a direct creation: refused, the account untouched
+	func() {
+		defer e.recoverEpilogue(idx, nOps, "the epilogue with accounts of other vesting kinds as recipients")
+		ec, _ := ctx.CacheContext()
+		for _, oid := range otherIds {
+			before := app.AccountKeeper.GetAccount(ec, e.addrs[oid])
+			if before == nil {
+				continue
+			}
+			bz0, _ := app.AppCodec().MarshalInterface(before)
+			tried := 0
+			for _, avp := range app.CfevestingKeeper.GetAllAccountVestingPools(ec) {
+				for _, p := range avp.VestingPools {
+					if !p.GetCurrentlyLocked().IsPositive() || tried >= 4 {
+						continue
+					}
+					tried++
+					_, err := e.ms.SendToVestingAccount(sdk.WrapSDKContext(ec), &vesttypes.MsgSendToVestingAccount{Owner: avp.Owner, ToAddress: e.addrs[oid].String(),
+						VestingPoolName: p.Name, Amount: sdk.OneInt(), RestartVesting: tried%2 == 0})
+					after := app.AccountKeeper.GetAccount(ec, e.addrs[oid])
+					bz1, _ := app.AppCodec().MarshalInterface(after)
+					rep.Eval("C09.send_to_an_account_of_another_vesting_kind_is_refused", err != nil && string(bz0) == string(bz1), idx, nOps,
+						fmt.Sprintf("send of 1 from pool %q of %s to address %d (%T): error %v, account unchanged %v", p.Name, avp.Owner, oid, before, err, string(bz0) == string(bz1)))
+				}
+			}
+		}
+	}()
 	// ---- C12: whatever state the messages left, the vesting module's exported genesis passes its own validation
 	{
 		var verr error
